@@ -287,6 +287,15 @@ def rec_issues(items, opts):
                 tr['strict'] = True
         if opts.get('provenance') and not tr['raised']:
             try:
+                # the same listing in a process that turns warnings into errors (python -W error, pytest configured
+                # with filterwarnings = error): the list is a function of the tree, not of the warning filters
+                import warnings
+                with warnings.catch_warnings():
+                    warnings.simplefilter('error')
+                    tr['prov'].append(_issue_list(listing(m)))
+            except Exception as e:  # noqa
+                tr['prov'].append([{'code': -8, 'mp': record.exc_key(e), 'ml': 1, 's': [0, 0], 'e': [0, 0]}])
+            try:
                 m2 = pickle.loads(pickle.dumps(m))
                 tr['prov'].append(_issue_list(listing(m2)))
                 from parso.python.diff import DiffParser
